@@ -67,3 +67,20 @@ bool drv_awt_resume(Sub::next_awt *a) { return a->await_resume(); }
 bool drv_awt_bool(Sub *s) { return (bool)s->next(); }
 bool drv_awt_not(Sub *s) { return !s->next(); }
 }
+// ---- added (W2): publisher constructors, the queue's (implicit) destructor, iterator / range-for access of a subscriber
+using It = Sub::iterator;
+extern "C" void c16_sink(int *v);          // the body of a range-for loop: user code, declared only (abstract callee of the spec)
+extern "C" {
+void drv_pub_ctor(Pub *out) { new(out) Pub(); }
+void drv_pub_ctor_mm(Pub *out, std::size_t mx, std::size_t mn) { new(out) Pub(mx, mn); }
+void drv_q_dtor(Q *q) { q->~Q(); }
+void drv_sub_begin(It *out, Sub *s) { new(out) It(s->begin()); }
+void drv_sub_end(It *out, Sub *s) { new(out) It(s->end()); }
+bool drv_it_eq(const It *a, const It *b) { return *a == *b; }
+bool drv_it_ne(const It *a, const It *b) { return *a != *b; }
+It *drv_it_inc(It *a) { return &++*a; }
+int *drv_it_deref(const It *a) { return &**a; }
+int *drv_it_arrow(const It *a) { return a->operator->(); }
+int drv_it_postinc(It *a) { auto z = (*a)++; return z._v; }   // storage::operator*/-> do not compile (known: replay/c13_iterator_storage_compile.cpp)
+void drv_sub_range_for(Sub *s) { for (int &v : *s) c16_sink(&v); }
+}
